@@ -127,7 +127,11 @@ def _c06_worker(args):
         cfg_x = cfg if (k2 % 2 == 0) else jsl.with_cfg(jsl.load_config(), early=False, trunc_active=False)
         best, nodes, ends = explore_min_makespan(d, cfg_x)
         out["tree_nodes"] += nodes
-        if best != opt:
+        if ends.get("node_budget") and (best is None or best > opt):
+            # the exploration was cut off by the node budget: "not found" is not "unreachable" (counted, not judged);
+            # a makespan BELOW the optimum is judged even then
+            out["budget_exhausted"] = out.get("budget_exhausted", 0) + 1
+        elif best != opt:
             out["violations"].append({"kind": "opt:unreachable" if (best is None or best > opt) else "opt:shortcut",
                                       "detail": "minimum makespan over all accept/decline behaviours = %s, optimum = %s"
                                       % (best, opt), "replay": {"routes": routes, "ends": ends}})
@@ -206,6 +210,7 @@ def c06(ctx):
         tot["lb_cases"] += o["lb_cases"]
         tot["opt_cases"] += o["opt_cases"]
         tot["tree_nodes"] += o["tree_nodes"]
+        tot["budget_exhausted"] += o.get("budget_exhausted", 0)
         sizes.update(o["sizes"])
         ctx.violations.extend(o["violations"])
         for dd in o["disagreements"]:
@@ -219,7 +224,8 @@ def c06(ctx):
                 "instances, brute-force optimum over all machine orders vs the minimum makespan over the complete "
                 "accept/decline tree of the real environment (pruned only by 'never idle-decline when nothing is in progress')",
         "traces_validated_against_impl": tot["lb_cases"], "lower_bound_cases": tot["lb_cases"],
-        "optimum_cases": tot["opt_cases"], "decision_tree_nodes_explored": tot["tree_nodes"], "instance_sizes": dict(sizes),
+        "optimum_cases": tot["opt_cases"], "decision_tree_nodes_explored": tot["tree_nodes"],
+        "explorations_cut_off_by_the_node_budget_not_judged": tot["budget_exhausted"], "instance_sizes": dict(sizes),
     })
     ctx.search_note = "brute-force optimum and exhaustive decision trees on %d tiny instances" % tot["opt_cases"]
 
